@@ -587,3 +587,21 @@ def set_nested_solver(h):
     if kind == 'configured-instance':
         now = h.st.heap[nested]
         h.check('the-configured-instance-is-not-touched', 'ok', ok=(not calls and set(now) == set(before) and all(now[f] is before[f] for f in before)))
+
+
+@contract('C09/samples._random_samples', ['C09', 'C02'], 'mystic/math/samples.py::_random_samples', native=False)
+def random_samples_uniform(h):
+    """the uniform sampler behind random_samples / samplepts / BuckshotSolver._InitialPoints: one row of npts values per
+    coordinate, every value inside that coordinate's range [lb[i], ub[i]] -- for ranges of any sign (two coordinates, three
+    points; the draws are arbitrary numbers in [0, 1))"""
+    if not h.is_sym():
+        h.unsupported('symbolic only')
+    from pyvc.values import ModRef
+    lb, ub = h.vec('lb', 2), h.vec('ub', 2)
+    h.assume('lb[0] <= ub[0] and lb[1] <= ub[1]', lb=lb, ub=ub)
+    h.set_summaries({('mystic/tools.py', 'random_state'): lambda I, c, a, k: ModRef('numpy.random')})
+    pts = h.call(h.get('mystic/math/samples.py::_random_samples'), lb, ub, 3)
+    h.check('one-row-per-coordinate-npts-values-each', 'len(pts) == 2 and len(pts[0]) == 3 and len(pts[1]) == 3', pts=pts)
+    for i in range(2):
+        for j in range(3):
+            h.check('every-sampled-value-inside-its-range', 'lb[%d] <= pts[%d][%d] and pts[%d][%d] <= ub[%d]' % (i, i, j, i, j, i), pts=pts, lb=lb, ub=ub)
